@@ -10,6 +10,7 @@ import (
 
 	"golang.org/x/net/html"
 
+	"github.com/titpetric/vuego/internal/helpers"
 	"github.com/titpetric/vuego/internal/parser"
 )
 
@@ -50,6 +51,11 @@ func extractSlotsFromDOM(nodes []*html.Node) *SlotScope {
 					TemplateNode: n,
 				})
 			}
+		}
+
+		// The children of an include tag are slot content for that component, not for the layout
+		if n.Type == html.ElementNode && n.Data == "template" && helpers.HasAttr(n, "include") {
+			return
 		}
 
 		// Traverse children
